@@ -1,4 +1,597 @@
+/-
+  AITB.Props.C19 — online planners (MCTS, POMCP): horizon, tree consistency, promotion, particles.
+
+  The transition system: `Roll` (one rollout) and `Sim` (one `simulate` call) are the big-step relations
+  "this list of generative-model calls is a run of the code from this tree"; `rollout_sound` /
+  `simulate_sound` show that the executable functions of AITB.Model.Tree (which the driver runs on the
+  traces logged from the real library) accept exactly such runs.  Every property theorem is stated for every
+  run: all generative models (`Mdl.valid`, `Mdl.numA` arbitrary: terminal states, variable action counts,
+  rewards of any sign), all horizons, all choices of UCT / rollout actions / sampled outcomes.
+-/
 import AITB.Model.Tree
 import AITB.Gen.C19
+import Mathlib.Algebra.Order.Field.Rat
+import Mathlib.Tactic.Ring
+import Mathlib.Tactic.Linarith
+import Mathlib.Tactic.FieldSimp
+
 namespace AITB.Tree
+
+/-! ### The transition system -/
+
+/-- `Roll m n s g used x`: `rollout(model, s, n, ·)` started with discount accumulator `g` makes exactly the
+    calls `used` and returns `x` -/
+inductive Roll (m : Mdl) : Nat → Nat → Rat → List Step → Rat → Prop
+  | zero (s : Nat) (g : Rat) : Roll m 0 s g [] 0
+  | term (n s : Nat) (g : Rat) (st : Step) : st.s = s → st.a < m.numA s → m.valid st = true → st.term = true →
+      Roll m (n+1) s g [st] (g * st.r)
+  | step (n s : Nat) (g : Rat) (st : Step) (used : List Step) (x : Rat) : st.s = s → st.a < m.numA s → m.valid st = true →
+      st.term = false → Roll m n st.s1 (g * m.gamma) used x → Roll m (n+1) s g (st :: used) (g * st.r + x)
+
+theorem rollout_sound (m : Mdl) : ∀ (n s : Nat) (g : Rat) (log : List Step) (x : Rat) (rest : List Step),
+    rollout m n s g log = some (x, rest) → ∃ used, log = used ++ rest ∧ Roll m n s g used x := by
+  intro n
+  induction n with
+  | zero =>
+    intro s g log x rest h
+    simp [rollout] at h
+    obtain ⟨rfl, rfl⟩ := h
+    exact ⟨[], rfl, Roll.zero s g⟩
+  | succ n ih =>
+    intro s g log x rest h
+    cases log with
+    | nil => simp [rollout] at h
+    | cons st log =>
+      simp only [rollout] at h
+      split at h
+      · rename_i hc
+        simp only [Bool.and_eq_true, decide_eq_true_eq] at hc
+        obtain ⟨⟨hs, ha⟩, hv⟩ := hc
+        split at h
+        · rename_i ht
+          simp at h
+          obtain ⟨rfl, rfl⟩ := h
+          exact ⟨[st], rfl, Roll.term n s g st hs ha hv ht⟩
+        · rename_i ht
+          split at h
+          · simp at h
+          · rename_i x' log' hr
+            simp at h
+            obtain ⟨rfl, rfl⟩ := h
+            obtain ⟨used, hu, hR⟩ := ih _ _ _ _ _ hr
+            refine ⟨st :: used, by rw [hu]; rfl, Roll.step n s g st used x' hs ha hv (by simpa using ht) hR⟩
+      · simp at h
+
+/-- `Sim m H t p s depth used t' r`: `simulate(node at p, s, depth)` with `maxDepth_ = H` run on tree `t` makes
+    exactly the calls `used`, leaves the tree `t'` and returns `r` -/
+inductive Sim (m : Mdl) (H : Nat) : Tree → Path → Nat → Nat → List Step → Tree → Rat → Prop
+  | stop (t : Tree) (p : Path) (s depth : Nat) (st : Step) (t1 : Tree) :
+      st.s = s → st.a < t.nA p → m.valid st = true →
+      descend m H (t.incN p) p depth st = some (t1, Mode.stop) →
+      Sim m H t p s depth [st] (t1.update p st.a st.r) st.r
+  | roll (t : Tree) (p : Path) (s depth : Nat) (st : Step) (t1 : Tree) (n : Nat) (used : List Step) (fr : Rat) :
+      st.s = s → st.a < t.nA p → m.valid st = true →
+      descend m H (t.incN p) p depth st = some (t1, Mode.roll n) →
+      Roll m n st.s1 1 used fr →
+      Sim m H t p s depth (st :: used) (t1.update p st.a (st.r + m.gamma * fr)) (st.r + m.gamma * fr)
+  | deeper (t : Tree) (p : Path) (s depth : Nat) (st : Step) (t1 t2 : Tree) (used : List Step) (fr : Rat) :
+      st.s = s → st.a < t.nA p → m.valid st = true →
+      descend m H (t.incN p) p depth st = some (t1, Mode.deeper) →
+      Sim m H t1 (p ++ [(st.a, m.key st)]) st.s1 (depth + 1) used t2 fr →
+      Sim m H t p s depth (st :: used) (t2.update p st.a (st.r + m.gamma * fr)) (st.r + m.gamma * fr)
+
+theorem simulate_sound (m : Mdl) (H : Nat) : ∀ (fuel : Nat) (t : Tree) (p : Path) (s depth : Nat) (log : List Step)
+    (t' : Tree) (r : Rat) (rest : List Step),
+    simulate m H fuel t p s depth log = some (t', r, rest) → ∃ used, log = used ++ rest ∧ Sim m H t p s depth used t' r := by
+  intro fuel
+  induction fuel with
+  | zero => intro t p s depth log t' r rest h; simp [simulate] at h
+  | succ fuel ih =>
+    intro t p s depth log t' r rest h
+    cases log with
+    | nil => simp [simulate] at h
+    | cons st log =>
+      simp only [simulate] at h
+      split at h
+      · rename_i hc
+        simp only [Bool.and_eq_true, decide_eq_true_eq] at hc
+        obtain ⟨⟨hs, ha⟩, hv⟩ := hc
+        split at h
+        · simp at h
+        · rename_i t1 hd
+          simp at h
+          obtain ⟨rfl, rfl, rfl⟩ := h
+          exact ⟨[st], rfl, Sim.stop t p s depth st t1 hs ha hv hd⟩
+        · rename_i t1 n hd
+          split at h
+          · simp at h
+          · rename_i fr log' hr
+            simp at h
+            obtain ⟨rfl, rfl, rfl⟩ := h
+            obtain ⟨used, hu, hR⟩ := rollout_sound m _ _ _ _ _ _ hr
+            exact ⟨st :: used, by rw [hu]; rfl, Sim.roll t p s depth st t1 n used fr hs ha hv hd hR⟩
+        · rename_i t1 hd
+          split at h
+          · simp at h
+          · rename_i t2 fr log' hr
+            simp at h
+            obtain ⟨rfl, rfl, rfl⟩ := h
+            obtain ⟨used, hu, hS⟩ := ih _ _ _ _ _ _ _ _ hr
+            exact ⟨st :: used, by rw [hu]; rfl, Sim.deeper t p s depth st t1 t2 used fr hs ha hv hd hS⟩
+      · simp at h
+
+
+/-! ### What `descend` can do to the tree -/
+
+theorem alloc_spec {t t1 : Tree} {p : Path} {n : Nat} (h : t.alloc p n = some t1) :
+    t1.nN = t.nN ∧ t1.aN = t.aN ∧ t1.aV = t.aV ∧ t1.rets = t.rets ∧ t1.budget = t.budget ∧ t1.ex = t.ex ∧
+    t1.parts = t.parts ∧ t1.nodes = t.nodes ∧ t1.nA p = n ∧ (∀ q, t1.nA q = t.nA q ∨ (q = p ∧ t.nA q = 0)) := by
+  unfold Tree.alloc at h
+  split at h
+  · rename_i hn
+    simp at h; subst h
+    exact ⟨rfl, rfl, rfl, rfl, rfl, rfl, rfl, rfl, hn, fun q => Or.inl rfl⟩
+  · split at h
+    · rename_i hn0
+      simp at h; subst h
+      refine ⟨rfl, rfl, rfl, rfl, rfl, rfl, rfl, rfl, by simp [upd], fun q => ?_⟩
+      by_cases hq : q = p
+      · subst hq; exact Or.inr ⟨rfl, hn0⟩
+      · left; simp [upd, hq]
+    · simp at h
+
+/-- the three shapes of the structural change made by `descend` -/
+inductive DescendShape (m : Mdl) (t t1 : Tree) (child : Path) (s1 : Nat) (mode : Mode) : Prop
+  | created : t.ex child = false → t1.ex = upd t.ex child true → t1.parts = upd t.parts child [s1] →
+      t1.nodes = t.nodes ++ [child] → (∀ q, t1.nA q = t.nA q) → mode ≠ Mode.deeper → DescendShape m t t1 child s1 mode
+  | pushed : t.ex child = true → t1.ex = t.ex → t1.parts = upd t.parts child (t.parts child ++ [s1]) →
+      t1.nodes = t.nodes → DescendShape m t t1 child s1 mode
+  | untouched : t1 = t → mode = Mode.stop → m.pomcp = false → DescendShape m t t1 child s1 mode
+
+theorem descend_spec {m : Mdl} {H : Nat} {t t1 : Tree} {p : Path} {depth : Nat} {st : Step} {mode : Mode}
+    (h : descend m H t p depth st = some (t1, mode)) :
+    t1.nN = t.nN ∧ t1.aN = t.aN ∧ t1.aV = t.aV ∧ t1.rets = t.rets ∧ t1.budget = t.budget ∧
+    (∀ q, t1.nA q = t.nA q ∨ (q = p ++ [(st.a, m.key st)] ∧ t.nA q = 0)) ∧
+    DescendShape m t t1 (p ++ [(st.a, m.key st)]) st.s1 mode ∧
+    (mode = Mode.deeper → depth + 1 < H ∧ t1.ex (p ++ [(st.a, m.key st)]) = true ∧
+        st.s1 ∈ t1.parts (p ++ [(st.a, m.key st)]) ∧ t1.nA (p ++ [(st.a, m.key st)]) = m.numA st.s1) ∧
+    (∀ n, mode = Mode.roll n → n = m.rollLen H depth) := by
+  unfold descend at h
+  simp only at h
+  split at h
+  · -- POMCP
+    split at h
+    · rename_i hp hex
+      have hex' : t.ex (p ++ [(st.a, m.key st)]) = false := by simpa using hex
+      split at h
+      · simp at h; obtain ⟨rfl, rfl⟩ := h
+        exact ⟨rfl, rfl, rfl, rfl, rfl, fun q => Or.inl rfl,
+          DescendShape.created hex' rfl rfl rfl (fun _ => rfl) (by simp), by simp, by simp⟩
+      · simp at h; obtain ⟨rfl, rfl⟩ := h
+        exact ⟨rfl, rfl, rfl, rfl, rfl, fun q => Or.inl rfl,
+          DescendShape.created hex' rfl rfl rfl (fun _ => rfl) (by simp), by simp, by simp⟩
+    · rename_i hp hex
+      have hex' : t.ex (p ++ [(st.a, m.key st)]) = true := by simpa using hex
+      split at h
+      · rename_i hdeep
+        cases ha : (t.pushPart (p ++ [(st.a, m.key st)]) st.s1).alloc (p ++ [(st.a, m.key st)]) (m.numA st.s1) with
+        | none => simp [ha] at h
+        | some t' =>
+          simp [ha] at h; obtain ⟨rfl, rfl⟩ := h
+          obtain ⟨a1, a2, a3, a4, a5, a6, a7, a8, a9, a10⟩ := alloc_spec ha
+          simp only [Bool.and_eq_true, decide_eq_true_eq] at hdeep
+          refine ⟨a1, a2, a3, a4, a5, a10, DescendShape.pushed hex' (by rw [a6]; rfl) (by rw [a7]; rfl) (by rw [a8]; rfl), ?_, by simp⟩
+          intro _
+          refine ⟨hdeep.1, by rw [a6]; exact hex', ?_, a9⟩
+          rw [a7]; simp [Tree.pushPart, upd]
+      · simp at h; obtain ⟨rfl, rfl⟩ := h
+        exact ⟨rfl, rfl, rfl, rfl, rfl, fun q => Or.inl rfl, DescendShape.pushed hex' rfl rfl rfl, by simp, by simp⟩
+  · -- MCTS
+    rename_i hp
+    have hp' : m.pomcp = false := by simpa using hp
+    split at h
+    · rename_i hdeep
+      simp only [Bool.and_eq_true, decide_eq_true_eq] at hdeep
+      split at h
+      · rename_i hex
+        have hex' : t.ex (p ++ [(st.a, m.key st)]) = false := by simpa using hex
+        simp at h; obtain ⟨rfl, rfl⟩ := h
+        exact ⟨rfl, rfl, rfl, rfl, rfl, fun q => Or.inl rfl,
+          DescendShape.created hex' rfl rfl rfl (fun _ => rfl) (by simp), by simp, by simp⟩
+      · rename_i hex
+        have hex' : t.ex (p ++ [(st.a, m.key st)]) = true := by simpa using hex
+        cases ha : (t.pushPart (p ++ [(st.a, m.key st)]) st.s1).alloc (p ++ [(st.a, m.key st)]) (m.numA st.s1) with
+        | none => simp [ha] at h
+        | some t' =>
+          simp [ha] at h; obtain ⟨rfl, rfl⟩ := h
+          obtain ⟨a1, a2, a3, a4, a5, a6, a7, a8, a9, a10⟩ := alloc_spec ha
+          refine ⟨a1, a2, a3, a4, a5, a10, DescendShape.pushed hex' (by rw [a6]; rfl) (by rw [a7]; rfl) (by rw [a8]; rfl), ?_, by simp⟩
+          intro _
+          refine ⟨hdeep.1, by rw [a6]; exact hex', ?_, a9⟩
+          rw [a7]; simp [Tree.pushPart, upd]
+    · simp at h; obtain ⟨rfl, rfl⟩ := h
+      exact ⟨rfl, rfl, rfl, rfl, rfl, fun q => Or.inl rfl, DescendShape.untouched rfl rfl hp', by simp, by simp⟩
+
+
+/-! ### Counts and means (clauses `node_count_is_sum`, `v_is_mean`) -/
+
+theorem sumTo_updN_lt (f : Nat → Nat) (a v : Nat) : ∀ n, a < n → sumTo (updN f a v) n + f a = sumTo f n + v := by
+  intro n
+  induction n with
+  | zero => intro h; omega
+  | succ n ih =>
+    intro h
+    by_cases han : a = n
+    · subst han
+      have : sumTo (updN f a v) a = sumTo f a := by
+        clear ih h
+        have : ∀ k, k ≤ a → sumTo (updN f a v) k = sumTo f k := by
+          intro k
+          induction k with
+          | zero => intro _; rfl
+          | succ k ihk =>
+            intro hk
+            simp only [sumTo]
+            rw [ihk (by omega)]
+            have : k ≠ a := by omega
+            simp [updN, this]
+        exact this a (Nat.le_refl a)
+      simp only [sumTo, this]
+      simp [updN]
+      omega
+    · have hlt : a < n := by omega
+      have := ih hlt
+      simp only [sumTo]
+      have hne : n ≠ a := fun h => han h.symm
+      simp only [updN, hne, if_false]
+      omega
+
+theorem sumTo_zero (f : Nat → Nat) (h : ∀ a, f a = 0) : ∀ n, sumTo f n = 0 := by
+  intro n
+  induction n with
+  | zero => rfl
+  | succ n ih => simp [sumTo, ih, h]
+
+theorem mean_cons (x : Rat) (l : List Rat) :
+    mean (x :: l) = mean l + (x - mean l) / ((l.length + 1 : Nat) : Rat) := by
+  unfold mean
+  simp only [sumQ, List.length_cons]
+  by_cases hl : l.length = 0
+  · have : l = [] := List.eq_nil_of_length_eq_zero hl
+    subst this
+    simp [sumQ]
+  · have h1 : ((l.length : Nat) : Rat) ≠ 0 := by exact_mod_cast hl
+    have h2 : ((l.length + 1 : Nat) : Rat) ≠ 0 := by
+      have : (l.length + 1 : Nat) ≠ 0 := Nat.succ_ne_zero _
+      exact_mod_cast this
+    field_simp
+    push_cast
+    ring
+
+/-- the bookkeeping invariant; `pend q` = number of `simulate` frames currently open on node `q`
+    (they have done `N++` on the node but not yet on one of its actions) -/
+structure StatInv (pend : Path → Nat) (t : Tree) : Prop where
+  cnt : ∀ q, t.nN q = sumTo (t.aN q) (t.nA q) + pend q
+  len : ∀ q a, t.aN q a = (t.rets q a).length
+  avg : ∀ q a, t.aV q a = mean (t.rets q a)
+  out : ∀ q a, t.nA q ≤ a → t.aN q a = 0
+
+theorem StatInv.incN {pend : Path → Nat} {t : Tree} (h : StatInv pend t) (p : Path) :
+    StatInv (upd pend p (pend p + 1)) (t.incN p) := by
+  refine ⟨fun q => ?_, h.len, h.avg, h.out⟩
+  show upd t.nN p (t.nN p + 1) q = sumTo (t.aN q) (t.nA q) + upd pend p (pend p + 1) q
+  by_cases hq : q = p
+  · subst hq; simp only [upd, if_true]; rw [h.cnt q]; omega
+  · simp only [upd, hq, if_false]; exact h.cnt q
+
+theorem StatInv.descend {pend : Path → Nat} {m : Mdl} {H : Nat} {t t1 : Tree} {p : Path} {depth : Nat} {st : Step}
+    {mode : Mode} (h : StatInv pend t) (hd : descend m H t p depth st = some (t1, mode)) : StatInv pend t1 := by
+  obtain ⟨e1, e2, e3, e4, _, hA, _, _, _⟩ := descend_spec hd
+  refine ⟨fun q => ?_, fun q a => ?_, fun q a => ?_, fun q a hqa => ?_⟩
+  · rw [e1, e2]
+    rcases hA q with hq | ⟨_, hq0⟩
+    · rw [hq]; exact h.cnt q
+    · have hz : ∀ a, t.aN q a = 0 := fun a => h.out q a (by omega)
+      rw [sumTo_zero _ hz]
+      have := h.cnt q
+      rw [hq0] at this
+      simpa [sumTo] using this
+  · rw [e2, e4]; exact h.len q a
+  · rw [e3, e4]; exact h.avg q a
+  · rw [e2]
+    rcases hA q with hq | ⟨_, hq0⟩
+    · exact h.out q a (by omega)
+    · exact h.out q a (by omega)
+
+theorem StatInv.update {pend pend' : Path → Nat} {t : Tree} {p : Path} {a : Nat} (rew : Rat) (h : StatInv pend' t)
+    (ha : a < t.nA p) (hp : pend' p = pend p + 1) (hq : ∀ q, q ≠ p → pend' q = pend q) :
+    StatInv pend (t.update p a rew) := by
+  refine ⟨fun q => ?_, fun q b => ?_, fun q b => ?_, fun q b hqb => ?_⟩
+  · show t.nN q = sumTo (upd t.aN p (updN (t.aN p) a (t.aN p a + 1)) q) (t.nA q) + pend q
+    by_cases hqp : q = p
+    · subst hqp
+      simp only [upd, if_true]
+      have := sumTo_updN_lt (t.aN q) a (t.aN q a + 1) (t.nA q) ha
+      have hc := h.cnt q
+      omega
+    · simp only [upd, hqp, if_false]
+      rw [← hq q hqp]; exact h.cnt q
+  · show upd t.aN p (updN (t.aN p) a (t.aN p a + 1)) q b = (upd t.rets p (updN (t.rets p) a (rew :: t.rets p a)) q b).length
+    by_cases hqp : q = p
+    · subst hqp
+      simp only [upd, if_true]
+      by_cases hb : b = a
+      · subst hb; simp [updN, h.len]
+      · simp [updN, hb, h.len]
+    · simp only [upd, hqp, if_false]; exact h.len q b
+  · show upd t.aV p (updN (t.aV p) a (t.aV p a + (rew - t.aV p a) / ((t.aN p a + 1 : Nat) : Rat))) q b
+        = mean (upd t.rets p (updN (t.rets p) a (rew :: t.rets p a)) q b)
+    by_cases hqp : q = p
+    · subst hqp
+      simp only [upd, if_true]
+      by_cases hb : b = a
+      · subst hb
+        simp only [updN, if_true]
+        rw [mean_cons, h.avg q b, h.len q b]
+      · simp only [updN, hb, if_false]; exact h.avg q b
+    · simp only [upd, hqp, if_false]; exact h.avg q b
+  · show upd t.aN p (updN (t.aN p) a (t.aN p a + 1)) q b = 0
+    have hA : (t.update p a rew).nA q = t.nA q := rfl
+    rw [hA] at hqb
+    by_cases hqp : q = p
+    · subst hqp
+      have hb : b ≠ a := by omega
+      simp only [upd, if_true, updN, hb, if_false]
+      exact h.out q b hqb
+    · simp only [upd, hqp, if_false]; exact h.out q b hqb
+
+/-- action counts of a node never change once allocated -/
+theorem Sim.nA_stable {m : Mdl} {H : Nat} {t t' : Tree} {p : Path} {s depth : Nat} {used : List Step} {r : Rat}
+    (h : Sim m H t p s depth used t' r) : ∀ q, t'.nA q = t.nA q ∨ t.nA q = 0 := by
+  induction h with
+  | stop t p s depth st t1 _ _ _ hd =>
+    intro q
+    obtain ⟨_, _, _, _, _, hA, _⟩ := descend_spec hd
+    rcases hA q with h | ⟨_, h⟩
+    · left; exact h
+    · right; exact h
+  | roll t p s depth st t1 n used fr _ _ _ hd _ =>
+    intro q
+    obtain ⟨_, _, _, _, _, hA, _⟩ := descend_spec hd
+    rcases hA q with h | ⟨_, h⟩
+    · left; exact h
+    · right; exact h
+  | deeper t p s depth st t1 t2 used fr _ _ _ hd _ ih =>
+    intro q
+    obtain ⟨_, _, _, _, _, hA, _⟩ := descend_spec hd
+    have h12 : t2.nA q = t1.nA q ∨ t1.nA q = 0 := ih q
+    show t2.nA q = t.nA q ∨ t.nA q = 0
+    rcases hA q with h | ⟨_, h⟩
+    · have h' : t1.nA q = t.nA q := h
+      rcases h12 with h2 | h2
+      · left; rw [h2, h']
+      · right; rw [← h']; exact h2
+    · right; exact h
+
+/-- **every `simulate` call preserves the bookkeeping invariant** (for any number of open frames above it) -/
+theorem Sim.statInv {m : Mdl} {H : Nat} {t t' : Tree} {p : Path} {s depth : Nat} {used : List Step} {r : Rat}
+    (h : Sim m H t p s depth used t' r) : ∀ pend, StatInv pend t → StatInv pend t' := by
+  induction h with
+  | stop t p s depth st t1 _ ha _ hd =>
+    intro pend hI
+    have h1 := (hI.incN p).descend hd
+    obtain ⟨_, _, _, _, _, hA, _⟩ := descend_spec hd
+    have ha1 : st.a < t1.nA p := by
+      rcases hA p with h | ⟨_, h⟩
+      · rw [h]; exact ha
+      · have : (t.incN p).nA p = t.nA p := rfl
+        omega
+    exact h1.update st.r ha1 (by simp [upd]) (fun q hq => by simp [upd, hq])
+  | roll t p s depth st t1 n used fr _ ha _ hd _ =>
+    intro pend hI
+    have h1 := (hI.incN p).descend hd
+    obtain ⟨_, _, _, _, _, hA, _⟩ := descend_spec hd
+    have ha1 : st.a < t1.nA p := by
+      rcases hA p with h | ⟨_, h⟩
+      · rw [h]; exact ha
+      · have : (t.incN p).nA p = t.nA p := rfl
+        omega
+    exact h1.update _ ha1 (by simp [upd]) (fun q hq => by simp [upd, hq])
+  | deeper t p s depth st t1 t2 used fr _ ha _ hd hS ih =>
+    intro pend hI
+    have h1 := (hI.incN p).descend hd
+    obtain ⟨_, _, _, _, _, hA, _⟩ := descend_spec hd
+    have ha1 : st.a < t1.nA p := by
+      rcases hA p with h | ⟨_, h⟩
+      · rw [h]; exact ha
+      · have : (t.incN p).nA p = t.nA p := rfl
+        omega
+    have h2 := ih _ h1
+    have ha2 : st.a < t2.nA p := by
+      rcases hS.nA_stable p with h | h
+      · rw [h]; exact ha1
+      · omega
+    exact h2.update _ ha2 (by simp [upd]) (fun q hq => by simp [upd, hq])
+
+
+/-! ### Horizon (clause `depth_le_horizon`) -/
+
+theorem Roll.length_le {m : Mdl} {n s : Nat} {g : Rat} {used : List Step} {x : Rat} (h : Roll m n s g used x) :
+    used.length ≤ n := by
+  induction h with
+  | zero => simp
+  | term => simp
+  | step n s g st used x _ _ _ _ _ ih => simp; omega
+
+theorem rollLen_le (m : Mdl) (H depth : Nat) (hd : depth < H) : 1 + m.rollLen H depth ≤ H - depth + m.overrun := by
+  unfold Mdl.rollLen Mdl.overrun
+  omega
+
+/-- **one simulation started at depth `depth` makes at most `H - depth + overrun` calls of the generative
+    model**; the i-th of them is made on a state `depth + i` transitions below the root -/
+theorem Sim.length_le {m : Mdl} {H : Nat} {t t' : Tree} {p : Path} {s depth : Nat} {used : List Step} {r : Rat}
+    (h : Sim m H t p s depth used t' r) : depth < H → used.length ≤ H - depth + m.overrun := by
+  induction h with
+  | stop => intro hd; simp; omega
+  | roll t p s depth st t1 n used fr _ _ _ hd hR =>
+    intro hlt
+    obtain ⟨_, _, _, _, _, _, _, _, hn⟩ := descend_spec hd
+    have := hR.length_le
+    have hn' := hn n rfl
+    have := rollLen_le m H depth hlt
+    simp; omega
+  | deeper t p s depth st t1 t2 used fr _ _ _ hd _ ih =>
+    intro hlt
+    obtain ⟨_, _, _, _, _, _, _, hm, _⟩ := descend_spec hd
+    have h1 := (hm rfl).1
+    have := ih h1
+    simp; omega
+
+/-! ### Returns stay in the achievable range (clause `v_in_return_range`) -/
+
+def pos0 (x : Rat) : Rat := if 0 ≤ x then x else 0
+def neg0 (x : Rat) : Rat := if x ≤ 0 then x else 0
+
+theorem pos0_nonneg (x : Rat) : 0 ≤ pos0 x := by unfold pos0; split <;> linarith
+theorem le_pos0 (x : Rat) : x ≤ pos0 x := by unfold pos0; split <;> linarith
+theorem pos0_mono {x y : Rat} (h : x ≤ y) : pos0 x ≤ pos0 y := by unfold pos0; split <;> split <;> linarith
+theorem neg0_nonpos (x : Rat) : neg0 x ≤ 0 := by unfold neg0; split <;> linarith
+theorem neg0_le (x : Rat) : neg0 x ≤ x := by unfold neg0; split <;> linarith
+theorem neg0_mono {x y : Rat} (h : x ≤ y) : neg0 x ≤ neg0 y := by unfold neg0; split <;> split <;> linarith
+
+theorem hiR_succ (g rmax : Rat) (n : Nat) : hiR g rmax (n+1) = rmax + g * pos0 (hiR g rmax n) := rfl
+theorem loR_succ (g rmin : Rat) (n : Nat) : loR g rmin (n+1) = rmin + g * neg0 (loR g rmin n) := rfl
+
+theorem pos0_hiR_mono (g rmax : Rat) (hg : 0 ≤ g) : ∀ n, pos0 (hiR g rmax n) ≤ pos0 (hiR g rmax (n+1)) := by
+  intro n
+  induction n with
+  | zero => show pos0 0 ≤ _; have : pos0 (0:Rat) = 0 := by simp [pos0]
+            rw [this]; exact pos0_nonneg _
+  | succ n ih =>
+    apply pos0_mono
+    have e1 := hiR_succ g rmax (n+1)
+    have e2 := hiR_succ g rmax n
+    have := mul_le_mul_of_nonneg_left ih hg
+    linarith
+
+theorem neg0_loR_anti (g rmin : Rat) (hg : 0 ≤ g) : ∀ n, neg0 (loR g rmin (n+1)) ≤ neg0 (loR g rmin n) := by
+  intro n
+  induction n with
+  | zero => show _ ≤ neg0 0; have : neg0 (0:Rat) = 0 := by simp [neg0]
+            rw [this]; exact neg0_nonpos _
+  | succ n ih =>
+    apply neg0_mono
+    have e1 := loR_succ g rmin (n+1)
+    have e2 := loR_succ g rmin n
+    have := mul_le_mul_of_nonneg_left ih hg
+    linarith
+
+/-- more remaining steps ⇒ wider range (for at least one step) -/
+theorem hiR_mono (g rmax : Rat) (hg : 0 ≤ g) : ∀ j k, 1 ≤ j → j ≤ k → hiR g rmax j ≤ hiR g rmax k := by
+  intro j k hj hjk
+  induction k with
+  | zero => omega
+  | succ k ih =>
+    by_cases hjk' : j = k + 1
+    · subst hjk'; exact le_refl _
+    · have h1 := ih (by omega)
+      obtain ⟨k', rfl⟩ : ∃ k', k = k' + 1 := ⟨k - 1, by omega⟩
+      rw [hiR_succ g rmax (k'+1)]
+      rw [hiR_succ] at h1
+      have := mul_le_mul_of_nonneg_left (pos0_hiR_mono g rmax hg k') hg
+      linarith
+
+theorem loR_anti (g rmin : Rat) (hg : 0 ≤ g) : ∀ j k, 1 ≤ j → j ≤ k → loR g rmin k ≤ loR g rmin j := by
+  intro j k hj hjk
+  induction k with
+  | zero => omega
+  | succ k ih =>
+    by_cases hjk' : j = k + 1
+    · subst hjk'; exact le_refl _
+    · have h1 := ih (by omega)
+      obtain ⟨k', rfl⟩ : ∃ k', k = k' + 1 := ⟨k - 1, by omega⟩
+      rw [loR_succ g rmin (k'+1)]
+      rw [loR_succ] at h1
+      have := mul_le_mul_of_nonneg_left (neg0_loR_anti g rmin hg k') hg
+      linarith
+
+/-- what the theorems assume of the generative model: a discount ≥ 0 and rewards within `[rmin, rmax]` -/
+structure Bnd (m : Mdl) (rmin rmax : Rat) : Prop where
+  g0 : 0 ≤ m.gamma
+  r : ∀ st, m.valid st = true → rmin ≤ st.r ∧ st.r ≤ rmax
+
+theorem Roll.bound {m : Mdl} {rmin rmax : Rat} (hb : Bnd m rmin rmax) {n s : Nat} {g : Rat} {used : List Step} {x : Rat}
+    (h : Roll m n s g used x) : 0 ≤ g → g * loR m.gamma rmin n ≤ x ∧ x ≤ g * hiR m.gamma rmax n := by
+  induction h with
+  | zero s g => intro _; simp [loR, hiR]
+  | term n s g st _ _ hv _ =>
+    intro hg
+    obtain ⟨h1, h2⟩ := hb.r st hv
+    rw [loR_succ, hiR_succ]
+    have e1 := mul_nonneg hb.g0 (pos0_nonneg (hiR m.gamma rmax n))
+    have e2 := mul_nonpos_of_nonneg_of_nonpos hb.g0 (neg0_nonpos (loR m.gamma rmin n))
+    constructor
+    · apply mul_le_mul_of_nonneg_left _ hg; linarith
+    · apply mul_le_mul_of_nonneg_left _ hg; linarith
+  | step n s g st used x _ _ hv _ _ ih =>
+    intro hg
+    obtain ⟨h1, h2⟩ := hb.r st hv
+    have hgg : 0 ≤ g * m.gamma := mul_nonneg hg hb.g0
+    obtain ⟨i1, i2⟩ := ih hgg
+    rw [loR_succ, hiR_succ]
+    have e1 := mul_le_mul_of_nonneg_left (le_pos0 (hiR m.gamma rmax n)) hgg
+    have e2 := mul_le_mul_of_nonneg_left (neg0_le (loR m.gamma rmin n)) hgg
+    have e3 := mul_le_mul_of_nonneg_left h1 hg
+    have e4 := mul_le_mul_of_nonneg_left h2 hg
+    constructor
+    · have : g * (rmin + m.gamma * neg0 (loR m.gamma rmin n)) = g * rmin + g * m.gamma * neg0 (loR m.gamma rmin n) := by ring
+      rw [this]; linarith
+    · have : g * (rmax + m.gamma * pos0 (hiR m.gamma rmax n)) = g * rmax + g * m.gamma * pos0 (hiR m.gamma rmax n) := by ring
+      rw [this]; linarith
+
+/-- one more step in front of a future return that is `0` or within the range for `n` steps -/
+theorem step_bound {m : Mdl} {rmin rmax : Rat} (hb : Bnd m rmin rmax) {st : Step} (hv : m.valid st = true) {fr : Rat} {n : Nat}
+    (h1 : neg0 (loR m.gamma rmin n) ≤ fr) (h2 : fr ≤ pos0 (hiR m.gamma rmax n)) :
+    loR m.gamma rmin (n+1) ≤ st.r + m.gamma * fr ∧ st.r + m.gamma * fr ≤ hiR m.gamma rmax (n+1) := by
+  obtain ⟨r1, r2⟩ := hb.r st hv
+  rw [loR_succ, hiR_succ]
+  have e1 := mul_le_mul_of_nonneg_left h1 hb.g0
+  have e2 := mul_le_mul_of_nonneg_left h2 hb.g0
+  constructor <;> linarith
+
+/-- **the return of a `simulate` call at depth `depth` is an achievable return over at most
+    `H - depth + overrun` steps** -/
+theorem Sim.bound {m : Mdl} {rmin rmax : Rat} (hb : Bnd m rmin rmax) {H : Nat} {t t' : Tree} {p : Path} {s depth : Nat}
+    {used : List Step} {r : Rat} (h : Sim m H t p s depth used t' r) : depth < H →
+    loR m.gamma rmin (H - depth + m.overrun) ≤ r ∧ r ≤ hiR m.gamma rmax (H - depth + m.overrun) := by
+  induction h with
+  | stop t p s depth st t1 _ _ hv _ =>
+    intro hlt
+    obtain ⟨r1, r2⟩ := hb.r st hv
+    have h1 := hiR_mono m.gamma rmax hb.g0 1 (H - depth + m.overrun) (le_refl 1) (by omega)
+    have h2 := loR_anti m.gamma rmin hb.g0 1 (H - depth + m.overrun) (le_refl 1) (by omega)
+    have e1 : hiR m.gamma rmax 1 = rmax := by simp [hiR]
+    have e2 : loR m.gamma rmin 1 = rmin := by simp [loR]
+    constructor <;> linarith
+  | roll t p s depth st t1 n used fr _ _ hv hd hR =>
+    intro hlt
+    obtain ⟨_, _, _, _, _, _, _, _, hn⟩ := descend_spec hd
+    have hn' := hn n rfl
+    have hlen := rollLen_le m H depth hlt
+    obtain ⟨b1, b2⟩ := hR.bound hb (by norm_num)
+    rw [one_mul] at b1 b2
+    have := step_bound hb hv (n := n) (fr := fr) (le_trans (neg0_le _) b1) (le_trans b2 (le_pos0 _))
+    have h1 := hiR_mono m.gamma rmax hb.g0 (n+1) (H - depth + m.overrun) (by omega) (by omega)
+    have h2 := loR_anti m.gamma rmin hb.g0 (n+1) (H - depth + m.overrun) (by omega) (by omega)
+    constructor <;> linarith [this.1, this.2]
+  | deeper t p s depth st t1 t2 used fr _ _ hv hd _ ih =>
+    intro hlt
+    obtain ⟨_, _, _, _, _, _, _, hm, _⟩ := descend_spec hd
+    have hd1 := (hm rfl).1
+    obtain ⟨b1, b2⟩ := ih hd1
+    have := step_bound hb hv (n := H - (depth + 1) + m.overrun) (fr := fr) (le_trans (neg0_le _) b1) (le_trans b2 (le_pos0 _))
+    have e : H - (depth + 1) + m.overrun + 1 = H - depth + m.overrun := by omega
+    rw [e] at this
+    exact this
+
 end AITB.Tree
